@@ -71,12 +71,16 @@ PROPS = {
     "C14": {
         "run": ["EvalProps"], "functional": False,
         "n": {"quick": 400, "thorough": 6000},
-        "level_text": "The state machine is a total Gallina function from scripts to traces (no panic outcome exists in the model after the repairs); "
-                      "storage faults cannot change requests or events (relational theorem over the model).  Tied to the code by running the real state machine "
+        "level_text": "The state machine is a total Gallina function from scripts to traces (no panic outcome exists in the model after the repairs).  Theorems: "
+                      "C14_storage_failures_change_nothing_but_storage_operations_and_metrics (two-run theorem, proved with a relational Hoare logic over the model's monad, Proofs/C14Rel.v: "
+                      "for every script and any two sets of failing storage operations the two traces are equal once storage operations and metrics are taken out - same requests, events, policy "
+                      "questions, installer calls, clock readings, timers, control requests and replies, in the same order), its corollary C14_requests_and_events_as_if_storage_worked (the property's "
+                      "wording, against the run in which no operation fails), and the two saturating-increment range theorems.  Tied to the code by running the real state machine "
                       "on scripted environments (extreme stored values, wrong types, clock jumps, storage faults, bad URLs) under catch_unwind with a TRACE-level "
-                      "tracing subscriber and a poll watchdog, and comparing full traces.",
+                      "tracing subscriber and a poll watchdog, and comparing full traces; every run with storage failures is also repeated on the real machine with a working storage and "
+                      "its requests and events compared (a difference is a concrete violation).",
         "level_note": "see DESIGN.md section 4 C14: panic-freedom of unmodelled code (logging, third-party crates) is exercised, not proved.",
-        "diff_meaning": "The implementation panicked, hung, or produced a trace that differs from the model's on this scripted environment.",
+        "diff_meaning": "The implementation panicked, hung, sent other requests or announced other events than the same run with a working storage (code 2), or produced a trace that differs from the model's on this scripted environment.",
         "rule": "random scripted environments biased to extreme stored values (0, +-1, u32::MAX+-1, i64 extremes, wrong types), clock jumps, storage faults and invalid URLs; "
                 "distinct = distinct implementation trace; non-trivial = at least one HTTP request or completed check",
         "assumptions": ["harness trait implementations follow the trait contracts", "Storage trait contract: writes cached until commit"],
